@@ -6,10 +6,14 @@
   destination, `lace compile` either exits 0 with the destination holding exactly the complete
   object file, or exits non-zero with the destination as it was.
 
-  PARTIAL BY NATURE (DESIGN.md §4 C08): a write that fails half-way on a *regular* file (disk
-  full) is OS behaviour that this file-system model does not exhibit; the theorem covers
-  assembly failure at every position, creation failure, and write failure on a destination
-  whose contents a failed write does not alter (`/dev/full`).
+  The file-system model (`Model/CliFlows.lean`) has the destination, its temporary sibling and
+  a fault parameter: a size limit at ANY byte count (a write that fails half-way on a regular
+  file: RLIMIT_FSIZE, disk full) and a failing rename. `compile_all_or_nothing_faults` covers
+  assembly failure at every position, creation failure, write failure at every byte position,
+  rename failure, and `/dev/full`; it also shows that no temporary file is left behind.
+  `in_place_truncates` states the defect the model exposed in the previous implementation
+  (fixed in lace 18fb606): writing the destination in place leaves it truncated.
+  What remains outside the model: a crash (power loss, SIGKILL) between two operations.
 -/
 import Lace.Model.CliFlows
 namespace Lace.C08
@@ -32,32 +36,89 @@ theorem emitAll_fail_at (emits : List (Option Word)) (k : Nat) (hk : k < emits.l
     have := hall _ (List.getElem_mem hk); rw [h] at this; simp at this
   simpa using this
 
+theorem writeLimited_ok (f : Faults) (old bytes : List Nat) :
+    (writeLimited f old bytes).2 = true → (writeLimited f old bytes).1 = old ++ bytes := by
+  unfold writeLimited
+  cases f.limit with
+  | none => simp
+  | some l => by_cases h : old.length + bytes.length ≤ l <;> simp [h]
+
+/-- `write_all_or_nothing`: success means the destination holds exactly the bytes, failure means
+it is as it was — under every fault; and the temporary sibling is gone either way. -/
+theorem writeAllOrNothing_spec (f : Faults) (s : Fs) (bytes : List Nat) (hne : bytes ≠ []) :
+    let r := writeAllOrNothing f s bytes
+    (r.2 = true → r.1.dest = .file (some bytes)) ∧ (r.2 = false → r.1.dest = s.dest) ∧
+    (s.tmp = none → r.1.tmp = none) := by
+  have hemp : bytes.isEmpty = false := by cases bytes <;> simp_all
+  obtain ⟨d, t⟩ := s
+  cases d with
+  | devFull => simp [writeAllOrNothing, applyOps, applyOp, hemp]
+  | uncreatable => simp [writeAllOrNothing, applyOps, applyOp]
+  | file c =>
+    have hw := writeLimited_ok f [] bytes
+    rcases hwl : writeLimited f [] bytes with ⟨b, ok⟩
+    rw [hwl] at hw
+    cases ok with
+    | false => simp [writeAllOrNothing, applyOps, applyOp, hwl]
+    | true =>
+      have hb : b = bytes := by simpa using hw
+      subst hb
+      cases hr : f.renameFails <;> simp [writeAllOrNothing, applyOps, applyOp, hwl, hr]
+
+/-- **C08**, with faults. For every assembler outcome, every destination kind, every size limit
+(a write failing after any number of bytes) and a failing rename: exit 0 with the destination
+holding exactly the complete object file, or exit non-zero with the destination as it was; no
+temporary file is left behind. -/
+theorem compile_all_or_nothing_faults (f : Faults) (p : Parsed) (s : Fs) :
+    let r := compileFs f p s
+    (r.1 = 0 → ∃ orig words, assembleOk p = some (orig, words) ∧
+                 r.2.dest = .file (some (objBytes orig words))) ∧
+    (r.1 ≠ 0 → r.2.dest = s.dest) ∧
+    (s.tmp = none → r.2.tmp = none) := by
+  simp only [compileFs]
+  cases hp : assembleOk p with
+  | none => simp
+  | some ow =>
+    obtain ⟨orig, words⟩ := ow
+    have hne : objBytes orig words ≠ [] := by simp [objBytes, be16]
+    have h := writeAllOrNothing_spec f s (objBytes orig words) hne
+    simp only at h
+    dsimp only
+    generalize writeAllOrNothing f s (objBytes orig words) = r at h ⊢
+    obtain ⟨s1, ok⟩ := r
+    cases ok with
+    | true => exact ⟨fun _ => ⟨orig, words, rfl, h.1 rfl⟩, fun hc => absurd rfl hc, h.2.2⟩
+    | false => exact ⟨fun hc => by simp at hc, fun _ => h.2.1 rfl, h.2.2⟩
+
 /-- **C08.** All-or-nothing, for every assembler outcome and every destination kind. -/
 theorem compile_all_or_nothing (p : Parsed) (d : Dest) :
     let r := compile p d
     (r.1 = 0 → ∃ orig words, assembleOk p = some (orig, words) ∧
                  r.2 = .file (some (objBytes orig words))) ∧
     (r.1 ≠ 0 → r.2 = d) := by
+  have h := compile_all_or_nothing_faults {} p { dest := d }
   simp only [compile]
-  cases hp : assembleOk p with
-  | none => simp
-  | some ow =>
-    obtain ⟨orig, words⟩ := ow
-    cases d with
-    | file c =>
-      simp [applyOp]
-      exact ⟨orig, words, ⟨rfl, rfl⟩, rfl⟩
-    | devFull =>
-      have : (objBytes orig words).isEmpty = false := by
-        simp [objBytes, be16]
-      simp [applyOp, this]
-    | uncreatable => simp [applyOp]
+  exact ⟨h.1, h.2.1⟩
 
-/-- Assembly failing at statement `k` leaves every destination untouched and exits non-zero. -/
+/-- The destination cannot hold the complete object file (size limit `l` smaller than it, at ANY
+byte position): non-zero exit, destination as it was, nothing left behind. -/
+theorem compile_write_fails_at (f : Faults) (orig : Option Word) (words : List Word) (p : Parsed)
+    (c : Option (List Nat)) (l : Nat) (hp : assembleOk p = some (orig, words)) (hl : f.limit = some l)
+    (hlt : l < (objBytes orig words).length) :
+    compileFs f p { dest := .file c } = (1, { dest := .file c }) := by
+  simp [compileFs, hp, writeAllOrNothing, applyOps, applyOp, writeLimited, hl, Nat.not_le.mpr hlt]
+
+/-- The defect of the previous implementation, as the model shows it: writing the destination in
+place under a size limit exits non-zero with the destination truncated (here: emptied). -/
+theorem in_place_truncates :
+    compileInPlace { limit := some 0 } (some (none, [some 0xF025#16])) { dest := .file (some [1, 2, 3]) }
+      = (1, { dest := .file (some []) }) := by decide
+
+/-- Assembly failing at statement `k` (any `k`) leaves every destination untouched and exits non-zero. -/
 theorem compile_fail_at (orig : Option Word) (emits : List (Option Word)) (k : Nat)
     (hk : k < emits.length) (h : emits[k] = none) (d : Dest) :
     compile (some (orig, emits)) d = (1, d) := by
-  simp [compile, assembleOk, emitAll_fail_at emits k hk h]
+  simp [compile, compileFs, assembleOk, emitAll_fail_at emits k hk h]
 
 /-- `/dev/full` and uncreatable destinations: non-zero exit, destination as it was. -/
 theorem compile_unwritable (p : Parsed) (d : Dest) (hd : d = .devFull ∨ d = .uncreatable) :
@@ -66,18 +127,17 @@ theorem compile_unwritable (p : Parsed) (d : Dest) (hd : d = .devFull ∨ d = .u
   simp only at h
   by_cases h0 : (compile p d).1 = 0
   · obtain ⟨_, _, _, hf⟩ := h.1 h0
-    have hne := h.2
     rcases hd with hd | hd <;> subst hd
-    · simp only [compile] at hf h0
+    · simp only [compile, compileFs] at hf h0
       cases hp : assembleOk p with
       | none => simp [hp] at h0
       | some ow =>
         have : (objBytes ow.1 ow.2).isEmpty = false := by simp [objBytes, be16]
-        simp [hp, applyOp, this] at h0
-    · simp only [compile] at h0
+        simp [hp, writeAllOrNothing, applyOps, applyOp, this] at h0
+    · simp only [compile, compileFs] at h0
       cases hp : assembleOk p with
       | none => simp [hp] at h0
-      | some ow => simp [hp, applyOp] at h0
+      | some ow => simp [hp, writeAllOrNothing, applyOps, applyOp] at h0
   · exact ⟨h0, h.2 h0⟩
 
 example : compile (some (none, [some 0xF025#16])) (.file (some [1, 2, 3])) =
@@ -85,5 +145,10 @@ example : compile (some (none, [some 0xF025#16])) (.file (some [1, 2, 3])) =
 example : compile (some (none, [some 0x1021#16, none, some 0xF025#16])) (.file (some [1, 2, 3])) =
     (1, .file (some [1, 2, 3])) := by decide
 example : compile (some (none, [some 0xF025#16])) .devFull = (1, .devFull) := by decide
+-- a write failing after 3 of 4 bytes: destination untouched, no temporary file left
+example : compileFs { limit := some 3 } (some (none, [some 0xF025#16])) { dest := .file (some [1, 2, 3]) } =
+    (1, { dest := .file (some [1, 2, 3]), tmp := none }) := by decide
+example : compileFs { renameFails := true } (some (none, [some 0xF025#16])) { dest := .file none } =
+    (1, { dest := .file none, tmp := none }) := by decide
 
 end Lace.C08
